@@ -49,6 +49,7 @@ type fakeEngine struct {
 	// inserts the PIT entry before face.Send — the Interest stays pending and will still time out later
 	failSend func(name enc.Name) bool
 	sendErrs []int
+	nonces   []string // one line per expressed Interest: express id, name, nonce in the encoded packet
 }
 
 func (e *fakeEngine) EngineTrait() ndn.Engine                                  { return e }
@@ -69,6 +70,12 @@ func (e *fakeEngine) Express(i *ndn.EncodedInterest, cb ndn.ExpressCallbackFunc)
 		panic("fake engine: Interest does not parse")
 	}
 	p := &pendingX{xid: e.nextX, name: pkt.Interest.Name().Clone(), cfg: *i.Config, cb: cb}
+	// the nonce that is really in the packet
+	nonce := "none"
+	if n := pkt.Interest.Nonce(); n != nil {
+		nonce = fmt.Sprint(*n)
+	}
+	e.nonces = append(e.nonces, fmt.Sprintf("NONCE %d %s %s", p.xid, nameStr(p.name), nonce))
 	e.nextX++
 	e.pending = append(e.pending, p)
 	if e.failSend != nil && e.failSend(p.name) {
@@ -441,6 +448,10 @@ func runFetchCase(o *out, r *rand.Rand, opt runFetchCaseOpt) {
 		case "out":
 			o.pf("EV run out\n")
 			fc.cli.VerifStep(object.VerifChanOut)
+			for _, l := range fc.eng.nonces {
+				o.pf("%s\n", l)
+			}
+			fc.eng.nonces = nil
 			for _, x := range fc.eng.sendErrs {
 				o.pf("SENDERR %d\n", x) // Express returned an error; the Interest stays pending (engine semantics)
 			}
